@@ -29,14 +29,26 @@ def sh(cmd, cwd=None, env=None, timeout=3600):
 def run_all(args):
     """tools_seeded.py all [--runs N]: re-evaluate every stored change against its property's check."""
     import glob
-    rows = []
+    from concurrent.futures import ThreadPoolExecutor
+    par = 1
+    if "--parallel" in args:
+        i = args.index("--parallel")
+        par = int(args[i + 1])
+        args = args[:i] + args[i + 2:]
     bad = 0
-    for d in sorted(glob.glob(os.path.join(VERIF, "seeded", "*", "meta.json"))):
+    metas = sorted(glob.glob(os.path.join(VERIF, "seeded", "*", "meta.json")))
+
+    def one(d):
         meta = json.load(open(d))
         base = os.path.dirname(d)
         cmd = [PY, os.path.abspath(__file__), "eval", os.path.join(base, "patch.diff"), os.path.join(base, "demo.py"),
                meta["breaks_property"]] + args
-        rc, o = sh(cmd, timeout=7200)
+        return d, sh(cmd, timeout=7200)
+
+    with ThreadPoolExecutor(max_workers=par) as ex:
+        results = list(ex.map(one, metas))
+    for d, (rc, o) in results:
+        meta = json.load(open(d))
         try:
             res = json.loads(o)
             ck = res["checks"][meta["breaks_property"]]
